@@ -55,14 +55,60 @@ def lean_sources():
     return out
 
 
-def extract_tables():
-    """source -> Generated.lean (tables and constants).  Fails closed."""
+def import_closure(mods):
+    """transitive `import SkimModel.…` closure of the given Lean modules"""
+    seen, stack = set(), list(mods)
+    while stack:
+        m = stack.pop()
+        if m in seen:
+            continue
+        seen.add(m)
+        path = os.path.join(LEAN, *m.split(".")) + ".lean"
+        if not os.path.exists(path):
+            continue
+        for line in open(path):
+            mm = re.match(r"^import\s+(SkimModel\.\S+)", line)
+            if mm:
+                stack.append(mm.group(1))
+    return seen
+
+
+# which Lean driver module answers for a harness stream id (default: Driver/<id>.lean)
+DRIVER_OF = {"C01": "C01", "C14": "C01", "C05": "C01", "C10S": "C01", "C20S": "C01", "C05CLI": "C05Cli"}
+
+
+def prop_modules(prop, mod=None):
+    """every Lean module this property's theorems and correspondence streams depend on"""
+    ms = ["SkimModel.Props." + prop] + ["SkimModel.Props." + e for e in (getattr(mod, "EXTRA_PROPS", ()) if mod else ())]
+    hps = [getattr(mod, "HARNESS_PROP", prop) if mod else prop]
+    if mod is not None:
+        import importlib as _il
+        for n in getattr(mod, "SUBMODULES", []):
+            hps.append(getattr(_il.import_module("vlib.props." + n), "HARNESS_PROP", prop))
+    for hp in hps:
+        ms.append("SkimModel.Driver." + DRIVER_OF.get(hp, hp))
+    return import_closure(ms)
+
+
+def extract_tables(prop=None, mod=None):
+    """source -> Generated.lean (tables and constants).  Fails closed — for the properties that depend on the table: an
+    extractor that no longer understands its source file is no reason to alarm a property that never looks at that table."""
     tool = os.path.join(ROOT, "tools", "extract.py")
     if not os.path.exists(tool):
         return
     rc, out = sh([sys.executable, tool, REPO, LEAN])
     if rc != 0:
-        raise BuildError("extractor", out[-4000:])
+        failed = re.findall(r"EXTRACTOR-FAILED (\S+)", out)
+        if prop is None or not failed:
+            raise BuildError("extractor", out[-4000:])
+        deps = prop_modules(prop, mod)
+        for f in failed:
+            try:
+                name = re.search(r'^NAME\s*=\s*"(\w+)"', open(os.path.join(ROOT, "tools", "extractors", f)).read(), re.M).group(1)
+            except Exception:
+                name = None
+            if name is None or ("SkimModel.Generated." + name) in deps:
+                raise BuildError("extractor", out[-4000:])
 
 
 def theorems_of(prop):
@@ -85,10 +131,10 @@ def theorems_of(prop):
     return out
 
 
-def lean_build(prop, thorough=False, extra=()):
+def lean_build(prop, thorough=False, extra=(), mod=None):
     """lake build of the property's theorem module(s) and the driver; axiom audit."""
     with Lock("lake"):
-        extract_tables()
+        extract_tables(prop, mod)
         bad = []
         for f in lean_sources():
             m = FORBIDDEN.search(strip_comments(open(f).read()))
@@ -96,9 +142,18 @@ def lean_build(prop, thorough=False, extra=()):
                 bad.append("%s: %s" % (f, m.group(0)))
         if bad:
             raise BuildError("forbidden-construct", "\n".join(bad))
-        rc, out = sh(["lake", "build", "SkimModel.Props." + prop] + ["SkimModel.Props." + e for e in extra] + ["skimdriver"], cwd=LEAN)
+        rc, out = sh(["lake", "build", "SkimModel.Props." + prop] + ["SkimModel.Props." + e for e in extra], cwd=LEAN)
         if rc != 0:
             raise BuildError("proof", out[-6000:])
+        # the driver executable links the driver modules of ALL properties: a module of another property that no longer builds
+        # (say, its generated table changed shape) is that property's alarm, not this one's — the driver built last serves
+        rc, out = sh(["lake", "build", "skimdriver"], cwd=LEAN)
+        if rc != 0:
+            broken = set(re.findall(r"Building (SkimModel\.\S+)", "\n".join(l for l in out.split("\n") if "✖" in l)))
+            broken |= set("SkimModel." + m.replace("/", ".") for m in re.findall(r"error: SkimModel/(\S+?)\.lean:", out))
+            deps = prop_modules(prop, mod)
+            if not broken or (broken & deps) or not os.path.exists(DRIVER):
+                raise BuildError("proof", out[-6000:])
         thms = theorems_of(prop)
         for e in extra:
             thms += theorems_of(e)
@@ -347,7 +402,7 @@ def run_property(mod, tier, seed, replay=None):
     except Exception:
         thms = []
     try:
-        thms, audited, checker = lean_build(prop, thorough=(tier == "thorough"), extra=getattr(mod, "EXTRA_PROPS", ()))
+        thms, audited, checker = lean_build(prop, thorough=(tier == "thorough"), extra=getattr(mod, "EXTRA_PROPS", ()), mod=mod)
     except BuildError as e:
         proof_err = e
     harness_err = None
